@@ -72,7 +72,8 @@ InitWith(c) ==
   /\ ended = FALSE /\ obs = ObsInit
   /\ hist = <<>> /\ cur = 1 /\ delays = 0
 
-Init == \E cl \in WithClose : InitWith([close |-> cl, workers |-> Workers, mpk |-> MaxPerKey, mk |-> MaxKeys])
+Init == \E cl \in WithClose : InitWith([close |-> cl, workers |-> Workers, mpk |-> MaxPerKey, mk |-> MaxKeys,
+                                        life |-> Life, stale |-> Stale])
 
 Usable(c) == cusable[c] /\ cst[c] = "open"
 Live == {k \in Keys : keys[k] # NoB}
@@ -88,7 +89,7 @@ Bufs(K) == IF K = {} THEN <<>> ELSE LET k == CHOOSE x \in K : TRUE IN chans[keys
 DropBuckets(K) ==
   /\ keys' = [k \in Keys |-> IF k \in K THEN NoB ELSE keys[k]]
   /\ chans' = [i \in DOMAIN chans |-> IF \E k \in K : keys[k].ch = i THEN [buf |-> <<>>, closed |-> TRUE] ELSE chans[i]]
-StaleKeys == {k \in Live : keys[k].lastUse + Stale <= now}
+StaleKeys == {k \in Live : keys[k].lastUse + cfg.stale <= now}
 
 (* ------------------------------------------------------------------------ *)
 (* workers                                                                   *)
@@ -99,7 +100,7 @@ Fresh(w, o, dead) ==
   /\ clast' = [clast EXCEPT ![c] = now] /\ UNCHANGED cusable
   /\ wheld' = [wheld EXCEPT ![w] = c] /\ wpc' = [wpc EXCEPT ![w] = "idle"]
   /\ wcur' = [wcur EXCEPT ![w] = ""]
-  /\ obs' = ObsGetReturn(o, w, c, TRUE, now, Life)
+  /\ obs' = ObsGetReturn(o, w, c, TRUE, now, cfg.life)
 
 WGetCall(w, k) ==
   /\ wpc[w] = "idle" /\ wheld[w] = "" /\ wleft[w] > 0
@@ -113,7 +114,7 @@ WGetLock(w) ==
   /\ LET k == wkey[w] b == keys[k] IN
      IF keysNil \/ b = NoB
      THEN Fresh(w, obs, {}) /\ UNCHANGED <<poolV, wch>>
-     ELSE IF now > b.lastUse + Life
+     ELSE IF now > b.lastUse + cfg.life
      THEN LET buf == chans[b.ch].buf IN
           /\ keys' = [keys EXCEPT ![k] = NoB] /\ UNCHANGED keysNil
           /\ IF buf = <<>>
@@ -146,11 +147,11 @@ WGetSel(w) ==
      IF buf = <<>> THEN Fresh(w, obs, {}) /\ UNCHANGED <<poolV, wch>>
      ELSE LET c == Head(buf) IN
           /\ chans' = [chans EXCEPT ![wch[w]].buf = Tail(buf)] /\ UNCHANGED <<keys, keysNil, wch>>
-          /\ IF ~Usable(c) \/ ("NoLifetimeTest" \notin Devs /\ clast[c] + Life < now)
+          /\ IF ~Usable(c) \/ ("NoLifetimeTest" \notin Devs /\ clast[c] + cfg.life < now)
              THEN /\ wpc' = [wpc EXCEPT ![w] = "g3"] /\ wcur' = [wcur EXCEPT ![w] = c]
                   /\ UNCHANGED <<connV, wheld, obs>>
              ELSE /\ wpc' = [wpc EXCEPT ![w] = "idle"] /\ wheld' = [wheld EXCEPT ![w] = c]
-                  /\ obs' = ObsGetReturn(obs, w, c, FALSE, now, Life)
+                  /\ obs' = ObsGetReturn(obs, w, c, FALSE, now, cfg.life)
                   /\ clast' = [clast EXCEPT ![c] = now]
                   /\ UNCHANGED <<cst, cusable, nconn, wcur>>
   /\ UNCHANGED <<cfg, now, wkey, wleft, sweepV, ppc, async, breaks, ended>>
@@ -269,7 +270,7 @@ Clock == EnClock /\ ~ended /\ ClockBody
 Hung == {w \in Workers : wpc[w] # "idle"} \cup (IF ppc \in {"none", "done"} THEN {} ELSE {"closer"})
 
 CfgJson == [close |-> cfg.close, workers |-> SetToSeq(cfg.workers), keys |-> SetToSeq(Keys),
-            maxPerKey |-> cfg.mpk, maxKeys |-> cfg.mk, life |-> Life, stale |-> Stale,
+            maxPerKey |-> cfg.mpk, maxKeys |-> cfg.mk, life |-> cfg.life, stale |-> cfg.stale,
             period |-> Period, maxTime |-> MaxTime]
 
 End == /\ ~ended /\ ~ProcEnabled /\ ~EnClock
